@@ -267,6 +267,11 @@ func polyTerm(p *Poly) *Term {
 
 // ---------- translator ----------
 
+type hypPoly struct {
+	p *Poly
+	m *big.Int
+}
+
 type divDef struct {
 	q *Term // skolem variable
 	r *Poly // dividend
@@ -283,7 +288,7 @@ type intTr struct {
 	divSk     map[*Term]*divDef // IDiv term -> definition
 	skDef     map[*Term]*divDef // skolem var -> definition
 	bvVars    map[*Term]*Term   // Int var -> BV var (for range constraints)
-	congHyps  map[string][]*Poly // modulus -> polynomials assumed congruent to 0
+	hypPolys  []hypPoly // assumed  p ≡ 0 (mod m)  or, with m == nil,  p = 0 ; in hypothesis order
 	noElim    bool
 }
 
@@ -292,7 +297,7 @@ var statModsDropped, statModsKept int64
 func newIntTranslator() *intTr {
 	return &intTr{lazyMemo: map[*Term]*Poly{}, canonMemo: map[*Term]*Poly{}, boolMemo: map[*Term]*Term{},
 		intMemo: map[*Term]*Poly{}, vbound: map[*Term]*big.Int{}, atomIv: map[*Term]ival{},
-		divSk: map[*Term]*divDef{}, skDef: map[*Term]*divDef{}, bvVars: map[*Term]*Term{}, congHyps: map[string][]*Poly{}}
+		divSk: map[*Term]*divDef{}, skDef: map[*Term]*divDef{}, bvVars: map[*Term]*Term{}}
 }
 
 // ivOf tightens the structural interval with the monomial-wise one.
@@ -661,6 +666,26 @@ func (tr *intTr) lazy1(t *Term) *Poly {
 		return pAdd(pScale(tr.canon(t.args[0]), pow2(t.args[1].sort.W)), tr.canon(t.args[1]))
 	case OBvAnd:
 		a, b := t.args[0], t.args[1]
+		m1 := big.NewInt(-1)
+		if !a.IsConst() || !b.IsConst() {
+			// x & mask where mask is 0 or all-ones (as the polynomial -1): x * (-mask)
+			if !b.IsConst() {
+				if lb := tr.lazy(b); ivWithin(tr.ivOf(lb), m1, big0) && !ivWithin(tr.ivOf(lb), big0, big0) {
+					ca := tr.canon(a)
+					r := pMul(ca, pNeg(lb))
+					r.iv = ivMeet(r.iv, ivUnion(ivConst(big0), tr.ivOf(ca)))
+					return r
+				}
+			}
+			if !a.IsConst() {
+				if la := tr.lazy(a); ivWithin(tr.ivOf(la), m1, big0) && !ivWithin(tr.ivOf(la), big0, big0) {
+					cb := tr.canon(b)
+					r := pMul(cb, pNeg(la))
+					r.iv = ivMeet(r.iv, ivUnion(ivConst(big0), tr.ivOf(cb)))
+					return r
+				}
+			}
+		}
 		if a.IsConst() {
 			a, b = b, a
 		}
@@ -675,27 +700,12 @@ func (tr *intTr) lazy1(t *Term) *Poly {
 			d := tr.divPoly(tr.canon(a), pow2(lo))
 			return pScale(tr.modPoly(d, pow2(hi-lo+1)), pow2(lo))
 		}
-		la, lb := tr.lazy(a), tr.lazy(b)
-		m1 := big.NewInt(-1)
-		if ivWithin(tr.ivOf(lb), m1, big0) { // b is 0 or all-ones (as -1)
-			ca := tr.canon(a)
-			r := pMul(ca, pNeg(lb))
-			r.iv = ivMeet(r.iv, ivUnion(ivConst(big0), tr.ivOf(ca)))
-			return r
-		}
-		if ivWithin(tr.ivOf(la), m1, big0) {
-			cb := tr.canon(b)
-			r := pMul(cb, pNeg(la))
-			r.iv = ivMeet(r.iv, ivUnion(ivConst(big0), tr.ivOf(cb)))
-			return r
-		}
 		ca, cb := tr.canon(a), tr.canon(b)
 		if ivWithin(tr.ivOf(ca), big0, big1) && ivWithin(tr.ivOf(cb), big0, big1) {
 			r := pMul(ca, cb)
 			r.iv = kiv(big0, big1)
 			return r
 		}
-		// x & (all-ones-or-zero mask that is canonical: 0 or 2^w-1)
 		fail("int translation: bvand of two symbolic operands (%s & %s)", termString(a, 2), termString(b, 2))
 	case OBvOr:
 		a, b := t.args[0], t.args[1]
@@ -980,18 +990,23 @@ func reduceCoefs(p *Poly, m *big.Int) *Poly {
 // eliminate uses assumed congruences H ≡ 0 (mod m) that contain a lone atom with coefficient ±1 to
 // substitute that atom in the goal polynomial (latest hypotheses first). Sound: g ≡ g[atom := R] (mod m).
 func (tr *intTr) eliminate(g *Poly, m *big.Int) *Poly {
-	hs := tr.congHyps[m.String()]
+	var hs []*Poly
+	for _, hp := range tr.hypPolys {
+		if hp.m == nil || hp.m.Cmp(m) == 0 {
+			hs = append(hs, hp.p)
+		}
+	}
 	g = reduceCoefs(g, m)
 	for i := len(hs) - 1; i >= 0 && len(g.ms) > 0; i-- {
-		h := hs[i]
+		h := reduceCoefs(hs[i], m)
 		// choose the lone unit-coefficient atom of h with the largest id that occurs in g
 		var atom *Term
-		var sign int
+		var coef *big.Int
 		for _, mo := range h.ms {
 			if len(mo.atoms) != 1 {
 				continue
 			}
-			if mo.coef.CmpAbs(big1) != 0 {
+			if new(big.Int).GCD(nil, nil, new(big.Int).Abs(mo.coef), m).Cmp(big1) != 0 {
 				continue
 			}
 			a := mo.atoms[0]
@@ -1019,12 +1034,19 @@ func (tr *intTr) eliminate(g *Poly, m *big.Int) *Poly {
 				continue
 			}
 			if atom == nil || a.id > atom.id {
-				atom, sign = a, mo.coef.Sign()
+				atom, coef = a, mo.coef
 			}
 		}
 		if atom == nil {
 			continue
 		}
+		// scale h by coef^-1 (mod m) so that the atom has coefficient 1
+		inv := new(big.Int).ModInverse(new(big.Int).Mod(coef, m), m)
+		if inv == nil {
+			continue
+		}
+		h = reduceCoefs(pScale(h, inv), m)
+		sign := 1
 		// h = sign*atom + rest ≡ 0  =>  atom ≡ -sign*rest
 		rest := pSub(h, pScale(pAtom(atom, unk()), big.NewInt(int64(sign))))
 		repl := reduceCoefs(pScale(rest, big.NewInt(int64(-sign))), m)
@@ -1055,9 +1077,12 @@ func (tr *intTr) eliminate(g *Poly, m *big.Int) *Poly {
 func (tr *intTr) hyp(t *Term) *Term {
 	if x, m, ok := isModZero(t); ok {
 		p := tr.integer(x)
-		tr.congHyps[m.String()] = append(tr.congHyps[m.String()], p)
+		tr.hypPolys = append(tr.hypPolys, hypPoly{p, m})
 		k := Var("k!"+strconv.FormatInt(t.id, 36), IntSort)
 		return Eq(polyTerm(p), IMul(k, IntC(m)))
+	}
+	if t.op == OEq && t.args[0].sort.K == KInt {
+		tr.hypPolys = append(tr.hypPolys, hypPoly{pSub(tr.integer(t.args[0]), tr.integer(t.args[1])), nil})
 	}
 	return tr.boolean(t)
 }
